@@ -249,9 +249,17 @@ class Pipeline(object):
 
         _logger.debug('Exited workers loop.')
 
+        worker_error = None
+
         if self._worker_tasks:
             _logger.debug('Waiting for workers to stop.')
-            yield from asyncio.wait(self._worker_tasks)
+            done_tasks = (yield from asyncio.wait(self._worker_tasks))[0]
+
+            # A task that failed while the pipeline was stopping must not
+            # be lost: report it like a failure before the stop request.
+            for task in done_tasks:
+                if not task.cancelled() and task.exception():
+                    worker_error = worker_error or task.exception()
 
         _logger.debug('Waiting for producer to stop.')
 
@@ -261,6 +269,9 @@ class Pipeline(object):
         yield from self._producer_task
 
         self._state = PipelineState.stopped
+
+        if worker_error:
+            raise worker_error
 
     def stop(self):
         if self._state == PipelineState.running:
